@@ -645,7 +645,16 @@ pub fn gen_query(r: &mut Rng, cat: &Catalog) -> GenQuery {
         feats.push("set_operation");
         let n = 1 + r.usize(2);
         let tys: Vec<Ty> = (0..n).map(|_| *r.pick(&[Ty::Num, Ty::Text])).collect();
-        let (l, lc, _, _, _) = gen_select(r, cat, &mut feats, false, Some(tys.clone()), true);
+        // (CTEs are statement-wide: a CTE of the left branch named like a table would capture the right
+        // branch's reference to that table, so branches of set operations define no CTE that shadows a table)
+        let (l, lc, _, _, _) = loop {
+            let mut f = vec![];
+            let x = gen_select(r, cat, &mut f, false, Some(tys.clone()), true);
+            if !f.contains(&"cte_shadows_table") {
+                feats.extend(f);
+                break x;
+            }
+        };
         let (rr, rc, _, _, _) = gen_select(r, cat, &mut feats, false, Some(tys), false);
         let op = *r.pick(&["UNION", "UNION ALL", "EXCEPT", "INTERSECT"]);
         feats.push(match op {
